@@ -436,15 +436,18 @@ def declareItems (s : Nat) : List Item → Graph → Res Graph
   | .imports _ :: rest, g => declareItems s rest g
   | .sigProbe _ _ :: rest, g => declareItems s rest g
 
+/-- `parent.map(|p| modules[p.0].0)` -/
+def parentScopeOf (mods : List Nat) : Option Nat → Res (Option Nat)
+  | none => .ok none
+  | some p =>
+    match mods[p]? with
+    | some ps => .ok (some ps)
+    | none => .panic .moduleOrder
+
 def declareModules : List Module → List Nat → Graph → Res (Graph × List Nat)
   | [], mods, g => .ok (g, mods)
   | m :: rest, mods, g =>
-    let pm : Res (Option Nat) := match m.parent with
-      | none => .ok none
-      | some p => match mods[p]? with
-        | some ps => .ok (some ps)
-        | none => .panic .moduleOrder
-    match pm with
+    match parentScopeOf mods m.parent with
     | .panic x => .panic x
     | .err e => .err e
     | .ok parentModule =>
